@@ -21,8 +21,10 @@ def make_cmds(rnd, kind, S, params, tier):
             for i in range(0, max(1, len(s) - k), max(1, len(s) // 3)):
                 pats.append(s[i:i + k])
     seen, pp = set(), []
+    if kind == "FMINDEX":
+        pats.append(b"")        # every member contains the empty pattern
     for p in pats:
-        if p and p not in seen:
+        if p not in seen:
             seen.add(p)
             pp.append(p)
     for dn in names:
